@@ -78,11 +78,10 @@ fn reg_of(k: &str) -> Option<RegName> {
     })
 }
 
-pub fn run(w: &[&str]) -> String {
+fn setup(w: &[&str]) -> (u32, FlatBus, Vec<(String, u64)>) {
     let code: Vec<u8> = (0..w[0].len() / 2).map(|i| u8::from_str_radix(&w[0][2 * i..2 * i + 2], 16).unwrap()).collect();
     let addr = w[1].parse::<u32>().unwrap();
     let fill = if w.len() > 4 { w[4].parse::<u64>().unwrap() } else { 0 };
-    let n = if w.len() > 5 { w[5].parse::<usize>().unwrap() } else { 1 };
     let mut bus = FlatBus { mem: HashMap::new(), fill, written: BTreeSet::new() };
     for (k, v) in parse_kv(w[3]) {
         bus.mem.insert(k.parse::<i64>().unwrap() as u32, v as u8);
@@ -90,23 +89,34 @@ pub fn run(w: &[&str]) -> String {
     for (i, b) in code.iter().enumerate() {
         bus.mem.insert(addr + i as u32, *b);
     }
+    (addr, bus, parse_kv(w[2]))
+}
+
+fn mk_state(regs: &[(String, u64)], pc: u32) -> LlamaState {
     let mut st = LlamaState::new();
-    for (k, v) in parse_kv(w[2]) {
-        if let Some(r) = reg_of(&k) {
-            st.set_reg(r, v as u32);
+    for (k, v) in regs {
+        if let Some(r) = reg_of(k) {
+            st.set_reg(r, *v as u32);
         }
     }
-    st.set_pc(addr);
+    st.set_pc(pc);
+    st
+}
+
+fn steps(st: &mut LlamaState, bus: &mut FlatBus, n: usize, lens: &mut Vec<u8>) -> Result<(), String> {
     let mut ex = LlamaExecutor::new();
-    let mut lens = Vec::new();
     for _ in 0..n {
         let pc = st.pc();
         let opcode = bus.load(pc, 8) as u8;
-        match ex.execute(opcode, &mut st, &mut bus) {
+        match ex.execute(opcode, st, bus) {
             Ok(l) => lens.push(l),
-            Err(e) => return format!("ERR {}", e.replace(' ', "_")),
+            Err(e) => return Err(format!("ERR {}", e.replace(' ', "_"))),
         }
     }
+    Ok(())
+}
+
+fn show(st: &LlamaState, bus: &FlatBus, lens: &[u8]) -> String {
     let g = |r: RegName| st.get_reg(r);
     let ws: Vec<String> = bus.written.iter().map(|a| format!("{}={}", a, bus.byte(*a))).collect();
     format!(
@@ -123,4 +133,47 @@ pub fn run(w: &[&str]) -> String {
         ws.join(","),
         lens.iter().map(|l| l.to_string()).collect::<Vec<_>>().join(",")
     )
+}
+
+pub fn run(w: &[&str]) -> String {
+    let (addr, mut bus, regs) = setup(w);
+    let n = if w.len() > 5 { w[5].parse::<usize>().unwrap() } else { 1 };
+    let mut st = mk_state(&regs, addr);
+    let mut lens = Vec::new();
+    if let Err(e) = steps(&mut st, &mut bus, n, &mut lens) {
+        return e;
+    }
+    show(&st, &bus, &lens)
+}
+
+/// exec_split <case...> <n> <m>: n+m steps in one state vs n steps, architectural registers carried into a fresh state, m steps
+pub fn run_split(w: &[&str]) -> String {
+    let n = w[5].parse::<usize>().unwrap();
+    let m = w[6].parse::<usize>().unwrap();
+    let (addr, mut bus_a, regs) = setup(w);
+    let mut st_a = mk_state(&regs, addr);
+    let mut la = Vec::new();
+    let ra = match steps(&mut st_a, &mut bus_a, n + m, &mut la) {
+        Ok(()) => show(&st_a, &bus_a, &la),
+        Err(e) => e,
+    };
+    let (_, mut bus_b, _) = setup(w);
+    let mut st_b = mk_state(&regs, addr);
+    let mut lb = Vec::new();
+    let rb = match steps(&mut st_b, &mut bus_b, n, &mut lb) {
+        Err(e) => e,
+        Ok(()) => {
+            let carry: Vec<(String, u64)> = ["BA", "I", "X", "Y", "U", "S", "F"]
+                .iter()
+                .map(|k| (k.to_string(), st_b.get_reg(reg_of(k).unwrap()) as u64))
+                .collect();
+            let mut st_c = mk_state(&carry, st_b.pc());
+            st_c.set_power_state(st_b.power_state());
+            match steps(&mut st_c, &mut bus_b, m, &mut lb) {
+                Ok(()) => show(&st_c, &bus_b, &lb),
+                Err(e) => e,
+            }
+        }
+    };
+    format!("{ra} || {rb}")
 }
